@@ -12,6 +12,8 @@ mod c02_grid;
 #[cfg(kani)]
 mod c04_nderiv;
 #[cfg(kani)]
+mod c05_drivers;
+#[cfg(kani)]
 mod c06_cmp;
 #[cfg(kani)]
 mod c06_nonint;
